@@ -40,9 +40,9 @@ def rule_emit(m, rep, rid='R1', counters=False):
     okk = kind == 'try_send'
     rep.ob(rid, 'emit/non-blocking-send', okk, body.where(sb),
            'the enqueue is try_send' if okk else 'emit enqueues with the blocking/timed `%s`' % kind)
-    okp = payload[0] == 'adt' and payload[2] == 'Some' and is_whole_param(dict(payload[3])['0'], 2) and \
+    okp = payload[0] == 'adt' and payload[2] == m.v_metric and is_whole_param(dict(payload[3])['0'], 2) and \
         peel(norm(dict(payload[3])['0'])) != ('param', 2)
-    okp = payload[0] == 'adt' and payload[2] == 'Some' and is_whole_param(dict(payload[3])['0'], 2)
+    okp = payload[0] == 'adt' and payload[2] == m.v_metric and is_whole_param(dict(payload[3])['0'], 2)
     rep.ob(rid, 'emit/enqueues-the-metric-text', okp, body.where(sb),
            'payload is Some(owned copy of the whole metric)' if okp else 'payload is %s' % fmt(payload))
     rc = result_cases(T, sb)
@@ -226,7 +226,7 @@ def rule_loop(m, rep, rid='R3', drained=False, liveness=False):
     okv = False
     if v is not None:
         x = proj_root(v)
-        okv = (x == lm.dterm) and any(y[0] == 'payload' and y[2] == 'Some' for y in walk(v))
+        okv = (x == lm.dterm) and any(y[0] == 'payload' and y[2] == m.v_metric for y in walk(v))
     rep.ob(rid, 'task-gets-the-dequeued-metric', okv, body.where(lm.t),
            'the task is called with the String just dequeued' if okv else 'the task is called with %s' % fmt(arg))
     dom = C.dominators(body)
@@ -778,10 +778,11 @@ def rule_counters(m, rep):
         def atom(t):
             t = norm(t)
             if term_callee_is(t, 'core::sync::atomic::Atomic::load'):
+                # two loads of one counter are two values (the counter moves between them): atoms are per load site
                 if _path_has_field(t[2][0], m.counters['submitted']):
-                    return 'S'
+                    return 'S@%s' % (t[3],)
                 if _path_has_field(t[2][0], m.counters['drained']):
-                    return 'D'
+                    return 'D@%s' % (t[3],)
             return None
         for bi, si in raw:
             s = b.blocks[bi]['stmts'][si]
@@ -821,8 +822,8 @@ def rule_counters(m, rep):
                'the subtraction is dominated by submitted > drained (or saturating): result in [0, submitted]' if okq else '; '.join(why))
         # uses the two counters
         loads = [norm(T.call_term(bi)) for bi, t in b.calls() if callee_is(t, 'core::sync::atomic::Atomic::load')]
-        names = sorted(set(atom(x) for x in loads if atom(x)))
-        rep.ob('C15-R4', 'queued-reads-submitted-and-drained', names == ['D', 'S'], b.where(), 'reads %s' % names)
+        names_ = sorted(set(atom(x)[0] for x in loads if atom(x)))
+        rep.ob('C15-R4', 'queued-reads-submitted-and-drained', names_ == ['D', 'S'], b.where(), 'reads %s' % names_)
     else:
         rep.anchor_lost('C15-R4', 'QueuingMetricSink::queued()')
     # constructor zeroes
